@@ -9,3 +9,7 @@ Theorem C02_lanes : C02_lanes_stmt.            Proof. exact Proofs.C02.C02_lanes
 Theorem C02_open : C02_open_stmt.              Proof. exact Proofs.C02.C02_open. Qed.
 Theorem C02_events : C02_events_stmt.          Proof. exact Proofs.C02.C02_events. Qed.
 Theorem C02_interleave : C02_interleave_stmt.  Proof. exact Proofs.C02.C02_interleave. Qed.
+
+(** Chart level: every track of every successfully parsed chart (through [from_file]). *)
+From CP Require Import Spec.ChartNotes Proofs.ChartNotes.
+Theorem C02_chart : C02_chart_stmt.  Proof. exact Proofs.ChartNotes.C02_chart. Qed.
